@@ -36,13 +36,17 @@ func (ref Reference) SemanticTokens(ctx context.Context) []lang.SemanticToken {
 			continue
 		}
 
-		return semanticTokensForTraversal(eType.Traversal)
+		var fileBytes []byte
+		if f, ok := ref.pathCtx.Files[eType.Range().Filename]; ok {
+			fileBytes = f.Bytes
+		}
+		return semanticTokensForTraversal(eType.Traversal, fileBytes)
 	}
 
 	return []lang.SemanticToken{}
 }
 
-func semanticTokensForTraversal(traversal hcl.Traversal) []lang.SemanticToken {
+func semanticTokensForTraversal(traversal hcl.Traversal, fileBytes []byte) []lang.SemanticToken {
 	tokens := make([]lang.SemanticToken, 0)
 
 	for _, t := range traversal {
@@ -90,6 +94,11 @@ func semanticTokensForTraversal(traversal hcl.Traversal) []lang.SemanticToken {
 					Column: rng.End.Column - 1,
 					Byte:   rng.End.Byte - 1,
 				},
+			}
+
+			// legacy index (foo.0) has only leading dot, no brackets
+			if rng.Start.Byte < len(fileBytes) && fileBytes[rng.Start.Byte] == '.' {
+				idxRange.End = rng.End
 			}
 
 			if ts.Key.Type() == cty.String {
